@@ -60,6 +60,10 @@ D_Promote31     == ~(AtEnd /\ NoErr /\ \E k \in KeysIn(cur, {"Valid"}) \ Configu
 \* a pending key that skips one accepted refresh starts over
 D_PendAbort     == ~(pc = "WriteTombstones" /\ gFull /\ zone.revoked = {} /\ \E k \in Keys \ Configured :
                         seenSince[k] # None /\ seenSince[k] > 0 /\ k \notin zone.keys /\ k \notin rootKeys)
+\* ... and when it is published again its hold-down starts from nothing: 30 days after its FIRST
+\* sighting it is pending, not trusted (a stale FirstSeen must not survive the abort)
+D_PendReadd     == ~(AtEnd /\ NoErr /\ gFull /\ zone.revoked = {} /\ \E k \in Plain(zone) \ (Configured \cup earned) :
+                        seenSince[k] = 0 /\ firstEver[k] # None /\ firstEver[k] >= 30)
 D_Missing89Kept == ~(AtEnd /\ NoErr /\ gFull /\ zone.revoked = {} /\ \E t \in DOMAIN cur :
                         cur[t].st = "Missing" /\ cur[t].age = 89 /\ t \notin DOMAIN fetched)
 D_Missing91Gone == ~(AtEnd /\ NoErr /\ gFull /\ zone.revoked = {} /\ \E k \in gT :
